@@ -287,9 +287,14 @@ def _run_case(case, ctx):
     w = {"ones": np.ones(R), "positive": rs.uniform(0.3, 3, R), "negative": -rs.uniform(0.3, 3, R), "mixed": rs.uniform(0.3, 3, R) * rs.choice([-1, 1], R)}[wk]
     A = rs.uniform(0.5, 2, (I, R))
     B = rs.standard_normal((R, R)) + 2 * np.eye(R)
+    intB = bool(rs.rand() < 0.25)
+    if intB:
+        # a hand-typed coupling matrix (identity / small integers) stored with an integer dtype: it carries no information about the
+        # precision of the weights it is combined with
+        B = (np.eye(R) * 2 + rs.randint(0, 2, (R, R))).astype(np.int64)
     C = rs.standard_normal((K, R))
     form = gen.choice(rs, ["parafac2-tuple", "parafac2-wrapper", "cp-tuple"])
-    desc = {"algo": algo, "shapes": data["shape"], "rank": R, "weights": wk, "form": form}
+    desc = {"algo": algo, "shapes": data["shape"], "rank": R, "weights": wk, "form": form, "integer_B": intB}
     if form == "cp-tuple":
         J = sl[0].shape[0]
         if any(s.shape[0] != J for s in sl) or J < R:
